@@ -10,6 +10,7 @@ import (
 	"reflect"
 	"runtime"
 	"strings"
+	"time"
 
 	crypthash "github.com/sergeymakinen/go-crypt/hash"
 	"github.com/sergeymakinen/go-crypt/md5"
@@ -85,16 +86,17 @@ func corrRace(prop, outDir string, seed uint64, tier string) *report {
 		// 2..12 and a few large ones, memories that are and are not multiples of 4*lanes
 		lr := newRng(seed ^ 0xC09)
 		oldProcs := runtime.GOMAXPROCS(0)
-		for _, p := range []uint8{2, 3, 4, 5, 6, 7, 8, 9, 10, 11, 12, 16, 17, 31, 33, 64} {
-			for mi, m := range []uint32{8 * uint32(p), 8*uint32(p) + 5, 12*uint32(p) + 1, 16 * uint32(p), 64 * uint32(p), 1024 + uint32(p)} {
-				if p > 12 && mi > 2 {
+		g0 := runtime.NumGoroutine()
+		for _, p := range []uint8{2, 3, 4, 5, 6, 7, 8, 9, 10, 11, 12, 16, 17, 31, 33, 64, 65, 129, 193, 255} {
+			for mi, m := range []uint32{8 * uint32(p), 8*uint32(p) + 5, 12*uint32(p) + 1, 16 * uint32(p), 64 * uint32(p), 1024 + uint32(p), 1024 * uint32(p), 512 * uint32(p)} {
+				if p > 12 && mi > 2 || p > 3 && mi > 5 {
 					continue
 				}
 				pw, salt := lr.bytes(lr.intn(16)), lr.bytes(8+lr.intn(8))
 				t := uint32(1 + (mi+int(p))%2)
 				wantI := xargon2.Key(pw, salt, t, m, p, 32)
 				wantID := xargon2.IDKey(pw, salt, t, m, p, 32)
-				for _, procs := range []int{1, 2, 5, 16} {
+				for _, procs := range []int{1, 2, 3, 5, 16} {
 					runtime.GOMAXPROCS(procs)
 					gotI := a2Key(a2cfg{1, 0x13, pw, salt, t, m, 32, p})
 					gotID := a2Key(a2cfg{2, 0x13, pw, salt, t, m, 32, p})
@@ -109,6 +111,19 @@ func corrRace(prop, outDir string, seed uint64, tier string) *report {
 			}
 		}
 		runtime.GOMAXPROCS(oldProcs)
+		// every goroutine a derivation started has finished when it returns
+		leak := 0
+		for i := 0; i < 100; i++ {
+			runtime.Gosched()
+			time.Sleep(2 * time.Millisecond)
+			if leak = runtime.NumGoroutine() - g0; leak <= 0 {
+				break
+			}
+		}
+		if leak > 0 {
+			rep.fail(map[string]interface{}{"history": "Argon2i / Argon2id keys for 2..255 lanes, memories 8p..1024p"}, "no goroutine left behind", fmt.Sprintf("%d goroutines still alive 200 ms after the last Key call returned", leak),
+				"worker goroutines outlive the key derivation")
+		}
 	}
 	if prop == "C08" {
 		// deterministic tie of the step model: the value getTypeInfo returns never aliases the cached object
